@@ -69,6 +69,9 @@ SPECS = [
     ("tdPrefix", "src/typeddata.rs", r'buffer\[0\.\.2\]\.copy_from_slice\(b"([^"]*)"\);', lambda m: _rust_bytes(m.group(1)), "Bytes"),
     ("tdDomainName", "src/typeddata.rs", r'let domain_separator = types\.struct_hash\("([^"]*)", domain\)\?;', lambda m: _rust_bytes(m.group(1)), "Chars"),
     ("msgPrefix", "src/message.rs", r'buffer\.extend_from_slice\(b"([^"]*)"\);', lambda m: _rust_bytes(m.group(1)), "Bytes"),
+    ("addrSkipTag", "src/account.rs", r"let digest = Digest::of\(&encoded\[([0-9]+)\.\.\]\);", lambda m: _nat(m.group(1)), "Nat"),
+    ("addrSkipHash", "src/account.rs", r"Address::from_slice\(&digest\[([0-9]+)\.\.\]\)", lambda m: _nat(m.group(1)), "Nat"),
+    ("defaultAccountIndex", "src/cmd.rs", r"#\[clap\(long, env, default_value_t = ([0-9]+)\)\]\s*(?:pub )?account_index: usize,", lambda m: _nat(m.group(1)), "Nat"),
     ("kindBytesRange", "src/typeddata.rs", r'\("bytes", n\) if \(([0-9]+)\.\.=([0-9]+)\)\.contains\(&n\) =>', lambda m: [_nat(m.group(1)), _nat(m.group(2))], "NatPair"),
     ("kindUintRange", "src/typeddata.rs", r'\("uint", n\) if n % ([0-9]+) == 0 && \(([0-9]+)\.\.=([0-9]+)\)\.contains\(&n\) =>', lambda m: [_nat(m.group(i)) for i in (1, 2, 3)], "NatList"),
     ("kindIntRange", "src/typeddata.rs", r'\("int", n\) if n % ([0-9]+) == 0 && \(([0-9]+)\.\.=([0-9]+)\)\.contains\(&n\) =>', lambda m: [_nat(m.group(i)) for i in (1, 2, 3)], "NatList"),
